@@ -10,6 +10,8 @@ ASSUMPTIONS = ["stubs: ptrace::attach/detach/cont, wait::waitpid, signal::kill, 
                "waitpid with __WALL returns only Stopped, Exited or an error (no WNOHANG/WCONTINUED)", "std::fmt::format stubbed"]
 def S(n, d, tier="quick"): return H("c03_suspend::" + n, desc=d, tier=tier, timeout=1800, est_gb=11, mem_gb=24)
 HARNESSES = [
+    H("c19_dump::g_dump_fresh", desc="dump(): threads resumed exactly once, before the soft-error stream; nothing stopped at return; SIGCONT sent", loops={"MINIDUMP_EXCEPTION": 20, "alloc_from_array": 8}, timeout=2400, est_gb=8, mem_gb=24),
+    H("c19_dump::g_dump_handles_fail", desc="dump() with a failing best-effort step: same", loops={"MINIDUMP_EXCEPTION": 20, "alloc_from_array": 8}, timeout=2400, est_gb=8, mem_gb=24, tier="thorough"),
     S("c03_plain_drop", "1 thread, clean attach, drop"), S("c03_plain_resume", "1 thread, clean attach, resume, drop"),
     S("c03_one_signal", "a signal arrives before the SIGSTOP"), S("c03_two_signals_resume", "two signals arrive before the SIGSTOP"),
     S("c03_eintr", "waitpid interrupted"), S("c03_signal_eintr", "signal, then EINTR", "thorough"),
